@@ -91,6 +91,47 @@ theorem C05_reject (hs : Hashing) (q : Query) (st : Store) (r : Resp)
     (∀ r' : Resp, lookup (accept q st r').1.1.index r'.blk = none) :=
   ⟨handle_reject hs (q, st) r (verify_none_of hs q r h), fun r' => lookup_eraseKey_self _ _⟩
 
+/-- **A duplicate is never accepted.**  Once a response for a block has made
+progress, that block is not awaited any more — not right away and not after any
+further responses (any peers, any order) — so every later response naming it,
+the very same valid filter included, is rejected without touching the query, the
+cache or the database and without progress. -/
+theorem C05_duplicate_rejected (hs : Hashing) (qs : Query × Store) (r : Resp) (cont : Bool) (rs : List Resp)
+    (h : (handle hs qs r).2 ≠ .none) :
+    let after := (feed hs cont (handle hs qs r).1 rs).1
+    lookup after.1.index r.blk = none ∧
+    ∀ r' : Resp, r'.blk = r.blk → handle hs after r' = (after, .none) := by
+  intro after
+  have hl : lookup after.1.index r.blk = none :=
+    feed_lookup_none hs cont rs r.blk _ (handle_accepted_not_awaited hs qs r h)
+  refine ⟨hl, fun r' hb => handle_reject hs after r' (verify_none_of hs after.1 r' ?_)⟩
+  right; right; left
+  rw [hb]; exact hl
+
+example : (feed exHash false
+      (⟨1, 2, [1, 51, 561], [(1, 1), (2, 2)], 2, none⟩, { cache := { cap := 100 } })
+      [⟨true, true, 1, true, 5, 4⟩, ⟨true, true, 1, true, 5, 4⟩, ⟨true, true, 1, true, 5, 4⟩]).2 =
+    [.progressed, .none, .none] := by decide
+
+/-- **Complete means everything was received.**  If the handler ever answers
+`Finished` for a prepared query, nothing is awaited any more, and every block of
+the prepared range [start, stop] was answered by a response of the stream that
+passed all tests when it arrived (and, by `C05_duplicate_rejected`, exactly one
+per block made progress): a batch is never reported complete with filters
+missing. -/
+theorem C05_complete_all_received (hs : Hashing) (c : Chain) (t : Nat) (bt : Batch) (mb : Int) (q : Query)
+    (st : Store) (cont : Bool) (rs : List Resp) (hp : prepare c t bt mb = .ok q)
+    (hf : Progress.finished ∈ (feed hs cont (q, st) rs).2) :
+    (feed hs cont (q, st) rs).1.1.index = [] ∧
+    ∀ b : Nat, q.start ≤ (b : Int) → (b : Int) ≤ q.stop →
+      ∃ r ∈ rs, r.blk = b ∧ r.isCFilter = true ∧ r.ftypeOk = true ∧ r.decodes = true := by
+  have hnil := feed_finished_index hs cont rs (q, st) hf
+  refine ⟨hnil, fun b h1 h2 => ?_⟩
+  obtain ⟨i, hi⟩ := prepare_covers c t bt mb q hp b h1 h2
+  rcases feed_received hs cont rs (q, st) (b, i) hi with h | h
+  · rw [hnil] at h; cases h
+  · exact h
+
 /-- the handler makes progress exactly when all tests pass -/
 theorem C05_progress_iff (hs : Hashing) (qs : Query × Store) (r : Resp) :
     (handle hs qs r).2 ≠ .none ↔ (verify hs qs.1 r).isSome = true := handle_progress_iff hs qs r
